@@ -251,7 +251,20 @@ fn cmd_replay(args: &[String]) {
     let prop = arg(args, "--profile").expect("--profile");
     let thorough = arg(args, "--tier").unwrap_or("quick") == "thorough";
     let sub: u64 = arg(args, "--sub").unwrap_or("0").parse().unwrap();
-    let o = if let Some(d) = arg(args, "--decisions") {
+    let o = if let (Some(d), "Bsmall") = (arg(args, "--decisions"), engine) {
+        let v: Vec<u32> = d.split(',').filter(|s| !s.is_empty()).map(|s| s.parse().unwrap()).collect();
+        let sc: Vec<usize> = arg(args, "--scope").expect("--scope").split(',').map(|x| x.parse().unwrap()).collect();
+        reset(Src::Script { v, pos: 0 }, true);
+        #[cfg(feature = "fc-alloc")]
+        {
+            engine_b::run_small(prop, engine_b::SmallB { cap0: sc[0], keyed: sc[1] != 0, max_ops: sc[2], members: sc[3] })
+        }
+        #[cfg(not(feature = "fc-alloc"))]
+        {
+            let _ = sc;
+            panic!("engine B not available")
+        }
+    } else if let Some(d) = arg(args, "--decisions") {
         let v: Vec<u32> = d.split(',').filter(|s| !s.is_empty()).map(|s| s.parse().unwrap()).collect();
         let mut p = engine_a::profile(prop, thorough);
         if let Some(sh) = arg(args, "--shape") {
@@ -379,6 +392,110 @@ fn cmd_dfs(args: &[String]) {
     }
     let s = summary_json(&acc, prop, "dfs", 0, (si, sn), wall, &format!(",\"dfs_shapes\":{nshapes},\"dfs_shapes_exhausted\":{nexhausted},\"dfs_exhausted\":{},\"dfs_per_shape\":{{{}}}", nshapes == nexhausted, per_shape.join(",")));
     write_out(out, &s);
+}
+
+/// Small-scope systematic sweep of GROUP OPERATION HISTORIES (C11 / C12): for one scope (initial capacity, keyed or
+/// plain view, at most `members` inserts with scripts of <= 1 Pending step / <= 1 item, at most `max_ops` operations
+/// drawn from {poll, spurious poll, fire an outstanding waker, fire any stale waker, insert, remove any key ever
+/// returned, one reserve}) EVERY decision vector is executed depth-first, each history then drained by the wake-only
+/// executor and dropped, with all monitors on.  One scope per shard.
+#[cfg(feature = "fc-alloc")]
+fn cmd_dfsb(args: &[String]) {
+    let prop = arg(args, "--prop").expect("--prop");
+    let budget: u64 = arg(args, "--budget").unwrap_or("1000000").parse().unwrap();
+    let members: usize = arg(args, "--members").unwrap_or("2").parse().unwrap();
+    let max_ops: usize = arg(args, "--max-ops").unwrap_or("5").parse().unwrap();
+    let out = arg(args, "--out");
+    let (si, sn) = {
+        let s = arg(args, "--shard").unwrap_or("0/1");
+        let mut it = s.split('/');
+        (it.next().unwrap().parse::<u64>().unwrap(), it.next().unwrap().parse::<u64>().unwrap())
+    };
+    let t0 = std::time::Instant::now();
+    let mut acc = Acc::new();
+    let mut scopes: Vec<engine_b::SmallB> = vec![];
+    for cap0 in [0usize, 1] {
+        for keyed in [false, true] {
+            scopes.push(engine_b::SmallB { cap0, keyed, max_ops, members });
+        }
+    }
+    // the first decision of a history (which operation comes first is forced: insert) carries no choice, so shards
+    // beyond the four scopes split on the FIRST recorded decision (residue classes)
+    let per = (sn as usize / scopes.len()).max(1) as u32;
+    let (mut nscopes, mut nexhausted) = (0u64, 0u64);
+    let mut per_shape: Vec<String> = vec![];
+    for (k, sb) in scopes.iter().enumerate() {
+        for part in 0..per {
+            if (k as u64 * per as u64 + part as u64) % sn != si {
+                continue;
+            }
+            nscopes += 1;
+            let mut prefix: Vec<u32> = vec![];
+            let mut exhausted = false;
+            let mut n = 0u64;
+            let mut first = true;
+            loop {
+                reset(Src::Script { v: prefix.clone(), pos: 0 }, true);
+                let o = engine_b::run_small(prop, *sb);
+                let (taken, arities) = (o.decisions.clone(), o.arities.clone());
+                // partition on the first decision
+                let mine = per == 1 || taken.is_empty() || taken[0] % per == part;
+                if mine {
+                    n += 1;
+                    let replay = format!("replay --engine Bsmall --profile {prop} --scope {},{},{},{} --decisions {}", sb.cap0, sb.keyed as u8, sb.max_ops, sb.members, taken.iter().map(|d| d.to_string()).collect::<Vec<_>>().join(","));
+                    absorb(&mut acc, prop, "B-dfs", o, replay);
+                }
+                let _ = first;
+                first = false;
+                let mut k2 = taken.len();
+                let mut next = taken;
+                loop {
+                    if k2 == 0 {
+                        exhausted = true;
+                        break;
+                    }
+                    k2 -= 1;
+                    if next[k2] + 1 < arities[k2] {
+                        next[k2] += 1;
+                        next.truncate(k2 + 1);
+                        break;
+                    }
+                }
+                // skip whole subtrees that belong to another part
+                if !exhausted && per > 1 && next[0] % per != part {
+                    let mut d0 = next[0];
+                    while d0 < arities[0] && d0 % per != part {
+                        d0 += 1;
+                    }
+                    if d0 >= arities[0] {
+                        exhausted = true;
+                    } else {
+                        next = vec![d0];
+                    }
+                }
+                if exhausted || n >= budget {
+                    break;
+                }
+                prefix = next;
+            }
+            if exhausted {
+                nexhausted += 1;
+            }
+            per_shape.push(format!("{}:{{\"executions\":{},\"exhausted\":{}}}", jstr(&format!("{}/cap{}/{}/members{}/ops{}/part{}of{}", if prop == "C12" { "stream_group" } else { "future_group" }, sb.cap0, if sb.keyed { "keyed" } else { "plain" }, sb.members, sb.max_ops, part, per)), n, exhausted));
+        }
+    }
+    let wall = t0.elapsed().as_secs_f64();
+    if let Some(pth) = out {
+        if pth != "-" {
+            write_sigs(&format!("{pth}.sigs"), &acc.sigs);
+        }
+    }
+    let s = summary_json(&acc, prop, "dfsb", 0, (si, sn), wall, &format!(",\"dfs_shapes\":{nscopes},\"dfs_shapes_exhausted\":{nexhausted},\"dfs_exhausted\":{},\"dfs_per_shape\":{{{}}}", nscopes == nexhausted, per_shape.join(",")));
+    write_out(out, &s);
+}
+#[cfg(not(feature = "fc-alloc"))]
+fn cmd_dfsb(_args: &[String]) {
+    panic!("groups need the alloc feature");
 }
 
 /// Systematic crash-point sweep (C02): for each generated case, first run it to completion, then re-run the same
@@ -511,6 +628,7 @@ fn main() {
         "replay" => cmd_replay(&args),
         "dfs" => cmd_dfs(&args),
         "allk" => cmd_allk(&args),
+        "dfsb" => cmd_dfsb(&args),
         "sigs-merge" => cmd_sigs_merge(&args),
         "config" => println!("{}", config_name()),
         _ => {
